@@ -7,6 +7,7 @@ import (
 	"os"
 	"path"
 	"path/filepath"
+	"sort"
 	"strconv"
 	"strings"
 
@@ -156,7 +157,8 @@ func (f File) Validate() error {
 		}
 		customTypes[msg.Name] = struct{}{}
 		msgNames := map[string]struct{}{}
-		for _, fd := range msg.Fields {
+		for _, idx := range sortedIndices(msg.Fields) {
+			fd := msg.Fields[idx]
 			if _, ok := msgNames[fd.Name]; ok {
 				return fmt.Errorf("message %s has duplicate field name %s", msg.Name, fd.Name)
 			}
@@ -183,7 +185,8 @@ func (f File) Validate() error {
 		}
 		customTypes[un.Name] = struct{}{}
 		unionNames := map[string]struct{}{}
-		for _, fd := range un.Fields {
+		for _, idx := range sortedIndices(un.Fields) {
+			fd := un.Fields[idx]
 			if _, ok := unionNames[fd.name()]; ok {
 				return fmt.Errorf("union %s has duplicate field name %s", un.Name, fd.name())
 			}
@@ -248,13 +251,30 @@ func (f File) Validate() error {
 			structTypeUsage[stName] = usage
 		}
 	}
-	for stName, usage := range structTypeUsage {
-		if usage[stName] {
+	// report in a fixed order: the error must not depend on map iteration order
+	stNames := make([]string, 0, len(structTypeUsage))
+	for stName := range structTypeUsage {
+		stNames = append(stNames, stName)
+	}
+	sort.Strings(stNames)
+	for _, stName := range stNames {
+		if structTypeUsage[stName][stName] {
 			return fmt.Errorf("struct %s recursively includes itself as a required field", stName)
 		}
 	}
 
 	return nil
+}
+
+// sortedIndices lists the keys of a message's or union's field map in ascending order, so that
+// whatever is reported about the fields does not depend on map iteration order.
+func sortedIndices[V any](fields map[uint8]V) []uint8 {
+	idx := make([]uint8, 0, len(fields))
+	for i := range fields {
+		idx = append(idx, i)
+	}
+	sort.Slice(idx, func(a, b int) bool { return idx[a] < idx[b] })
+	return idx
 }
 
 func typeDefined(ft FieldType, allTypes map[string]struct{}) error {
